@@ -84,6 +84,21 @@ func init() {
 				return nil, err
 			}
 			s.add(st)
+			{ // random walks over the same small alphabet, far deeper than the exhaustive tree
+				nch, ln := 500, 16
+				if cfg.Tier == "thorough" {
+					nch *= 6
+				}
+				rf := cfg.Out + ".rnd.lin.ndjson"
+				rn, err := tt.RandomChains(btExplorer(ln), rf, nch, ln, cfg.Seed*31+7)
+				if err != nil {
+					return nil, err
+				}
+				s.Files = append(s.Files, rf)
+				s.Nodes += rn
+				s.Leaves += nch
+				s.Extra["random_walks"] = nch
+			}
 			runs, steps := 6, 1000
 			if cfg.Tier == "thorough" {
 				runs, steps = 24, 5000
